@@ -423,6 +423,80 @@ fn g5(_tier: Tier) -> Vec<Case> {
     out
 }
 
+// ---- G6: member routing ---------------------------------------------------------------------------
+// An aggregate is taken apart and an aggregate of the same type is rebuilt from the parts: every routing
+// map positions -> source members (n^n maps for arity n, so all permutations and all duplications), in every
+// context an optimisation could mistake for the identity: directly, behind one and two calls, in one arm of a
+// branch whose other arm is the identity, nested, and through a struct with differently typed members.
+
+fn g6(tier: Tier) -> Vec<Case> {
+    let mut out = vec![];
+    let names = ["x", "y", "z"];
+    for n in [2usize, 3] {
+        let ty = T::Tup(vec![T::U8; n]);
+        let members = |third: Ex| -> Vec<Ex> { if n == 2 { vec![v("a"), v("b")] } else { vec![v("a"), v("b"), third] } };
+        let total = n.pow(n as u32);
+        for code in 0..total {
+            let route: Vec<usize> = (0..n).map(|i| (code / n.pow(i as u32)) % n).collect();
+            let rebuilt = || Ex::Tuple(route.iter().map(|r| v(names[*r])).collect());
+            let identity = || Ex::Tuple((0..n).map(|r| v(names[r])).collect());
+            let pat: Vec<String> = (0..n).map(|i| names[i].to_string()).collect();
+            let third = || bin(Op::BitXor, v("a"), l(&T::U8, 85));
+            let h = Func { name: "h".into(), params: vec![("p".into(), ty.clone(), false)], ret: ty.clone(), body: blk(vec![St::LetTup(pat.clone(), v("p"))], Some(rebuilt())) };
+            let f = |body: Ex, ret: T| Func { name: "f".into(), params: vec![("a".into(), T::U8, false), ("b".into(), T::U8, false)], ret, body };
+            let mk = || Ex::Tuple(members(third()));
+            let rs = route.iter().map(|r| r.to_string()).collect::<String>();
+            let mut contexts: Vec<(&str, Vec<Func>)> = vec![
+                ("direct", vec![f(blk(vec![St::Let("p".into(), false, None, mk()), St::LetTup(pat.clone(), v("p"))], Some(rebuilt())), ty.clone())]),
+                ("call", vec![h.clone(), f(blk(vec![], Some(Ex::Call("h".into(), vec![mk()]))), ty.clone())]),
+                ("call-call", vec![h.clone(), f(blk(vec![], Some(Ex::Call("h".into(), vec![Ex::Call("h".into(), vec![mk()])]))), ty.clone())]),
+                (
+                    "branch",
+                    vec![f(
+                        blk(vec![St::Let("p".into(), false, None, mk()), St::LetTup(pat.clone(), v("p"))], Some(Ex::If(Box::new(bin(Op::Lt, v("a"), v("b"))), Box::new(blk(vec![], Some(rebuilt()))), Box::new(blk(vec![], Some(identity())))))),
+                        ty.clone(),
+                    )],
+                ),
+            ];
+            if n == 2 || tier == Tier::Thorough {
+                // nested: the routed aggregate is a member of an outer one that is rebuilt in place
+                let outer = T::Tup(vec![ty.clone(), T::U8]);
+                contexts.push((
+                    "nested",
+                    vec![f(
+                        blk(
+                            vec![St::Let("q".into(), false, None, Ex::Tuple(vec![mk(), v("b")])), St::LetTup(vec!["p".into(), "w".into()], v("q")), St::LetTup(pat.clone(), v("p"))],
+                            Some(Ex::Tuple(vec![rebuilt(), v("w")])),
+                        ),
+                        outer,
+                    )],
+                ));
+            }
+            if n == 3 && tier == Tier::Quick {
+                contexts.truncate(2);
+            }
+            for (cn, funcs) in contexts {
+                out.push(Case { name: format!("g6:tuple{n}:{cn}:route={rs}"), prog: Prog { funcs }, params: vec![T::U8, T::U8] });
+            }
+        }
+    }
+    // struct with differently typed members: rebuilt from its own fields, from swapped-and-converted fields,
+    // and through a call (the only type-correct routings)
+    let s_of = |a: Ex, b: Ex| Ex::MkS(Box::new(a), Box::new(b));
+    let mk_s = || s_of(v("a"), into(v("b"), T::U32));
+    let bodies: Vec<(&str, Ex)> = vec![
+        ("identity", s_of(v("m"), v("k"))),
+        ("fresh-a", s_of(v("b"), v("k"))),
+        ("fresh-b", s_of(v("m"), into(v("m"), T::U32))),
+        ("crossed", s_of(Ex::TryInto(Box::new(v("k")), T::U8), into(v("m"), T::U32))),
+    ];
+    for (bn, e) in bodies {
+        let f = Func { name: "f".into(), params: vec![("a".into(), T::U8, false), ("b".into(), T::U8, false)], ret: T::S, body: blk(vec![St::Let("p".into(), false, None, mk_s()), St::LetS("m".into(), "k".into(), v("p"))], Some(e)) };
+        out.push(Case { name: format!("g6:struct:{bn}"), prog: Prog { funcs: vec![f] }, params: vec![T::U8, T::U8] });
+    }
+    out
+}
+
 pub fn all_cases(tier: Tier) -> Vec<Case> {
     let mut v = vec![];
     v.extend(g1(tier));
@@ -430,6 +504,7 @@ pub fn all_cases(tier: Tier) -> Vec<Case> {
     v.extend(g3(tier));
     v.extend(g4(tier));
     v.extend(g5(tier));
+    v.extend(g6(tier));
     v
 }
 
@@ -548,7 +623,7 @@ fn run_all(ctx: &mut Ctx) {
 pub static C01: CheckDef = CheckDef {
     id: "C01",
     level: "exploration",
-    rule: "MiniCairo families, each enumerated completely up to its bound: G1 expression trees of depth <=2 over + - * / % on u8, i8, felt252 (thorough adds u32, u128) with leaves {a, b, literals}, plus comparison/short-circuit guards of a panicking operand (evaluation order is observable through which panic fires); G2 control skeletons: nestings of depth <=2 of if / match-on-integer / while / for / loop-with-break with a 4-condition menu and a 6-effect menu (accumulate, mix, array append, early return, panic, checked subtract) plus break/continue; G3 data movement: 6 producers (struct, tuple, enum, Option, nested tuple, non-copy struct with an array) x consumers (field access, destructuring, copy, snapshot/desnap, match, unwrap, through a call); G4 every sequence of length <=2 (thorough <=3) over 23 array/dict operations (append v, pop_front, get i, at i, len, dict insert k v, dict get k; v,k,i in {0,1,2}); G5 every subset of 4 variables live across a call / a branch merge / a loop back-edge / two calls. Each program is compiled with the default configuration and with optimisations disabled and run on the full cross product of B(T) (u8: {0,1,2,127,128,254,255}; i8: {-128,-127,-1,0,1,126,127}; felt252: {0,1,2,-1,-2,2^128}). Oracle: result felts == reference evaluator's value, or panic data == the evaluator's panic data, exactly. distinct_nontrivial = distinct program texts.",
+    rule: "MiniCairo families, each enumerated completely up to its bound: G1 expression trees of depth <=2 over + - * / % on u8, i8, felt252 (thorough adds u32, u128) with leaves {a, b, literals}, plus comparison/short-circuit guards of a panicking operand (evaluation order is observable through which panic fires); G2 control skeletons: nestings of depth <=2 of if / match-on-integer / while / for / loop-with-break with a 4-condition menu and a 6-effect menu (accumulate, mix, array append, early return, panic, checked subtract) plus break/continue; G3 data movement: 6 producers (struct, tuple, enum, Option, nested tuple, non-copy struct with an array) x consumers (field access, destructuring, copy, snapshot/desnap, match, unwrap, through a call); G4 every sequence of length <=2 (thorough <=3) over 23 array/dict operations (append v, pop_front, get i, at i, len, dict insert k v, dict get k; v,k,i in {0,1,2}); G5 every subset of 4 variables live across a call / a branch merge / a loop back-edge / two calls; G6 member routing: a tuple of arity 2 / 3 is destructured and a tuple of the same type rebuilt from the parts under every routing map positions->members (4 / 27 maps: all permutations and duplications) in the contexts direct, behind one call, behind two calls, one arm of a branch whose other arm is the identity, nested in an outer tuple, plus the type-correct routings of a struct with differently typed members. Each program is compiled with the default configuration and with optimisations disabled and run on the full cross product of B(T) (u8: {0,1,2,127,128,254,255}; i8: {-128,-127,-1,0,1,126,127}; felt252: {0,1,2,-1,-2,2^128}). Oracle: result felts == reference evaluator's value, or panic data == the evaluator's panic data, exactly. distinct_nontrivial = distinct program texts.",
     assumptions: &["the reference evaluator (mini.rs) is the specification for the modelled subset: checked integer arithmetic with the corelib panic strings, left-to-right evaluation, short-circuit && ||, truncating signed division", "programs outside MiniCairo are only covered differentially (C05)"],
     run: run_all,
     stack_mb: 32,
